@@ -94,6 +94,18 @@ func genC04(e *emitter, tier string) {
 		k++
 		e.emit(opCase("matmul-bad", "MatMul", nil, []*TJ{a, b}, nil))
 	}
+	// a vector against a matrix / a stack whose contracted extent differs and ONE of the two is 1 (elementwise
+	// broadcasting would stretch it; a matrix product refuses)
+	for _, kk := range []int{2, 3} {
+		for _, lead := range [][]int{{}, {2}, {1}, {2, 1}} {
+			k++
+			v1, vk := smallT("f32", []int{1}, k), smallT("f32", []int{kk}, k+1)
+			e.emit(opCase("matmul-bad", "MatMul", nil, []*TJ{smallT("f32", append(append([]int{}, lead...), 2, kk), k), v1}, nil))
+			e.emit(opCase("matmul-bad", "MatMul", nil, []*TJ{smallT("f32", append(append([]int{}, lead...), 2, 1), k), vk}, nil))
+			e.emit(opCase("matmul-bad", "MatMul", nil, []*TJ{v1, smallT("f32", append(append([]int{}, lead...), kk, 2), k)}, nil))
+			e.emit(opCase("matmul-bad", "MatMul", nil, []*TJ{vk, smallT("f32", append(append([]int{}, lead...), 1, 2), k)}, nil))
+		}
+	}
 	// vectors: v.v, v.M, M.v, v.batch, batch.v
 	for _, kk := range exts {
 		for _, n := range exts {
